@@ -516,7 +516,7 @@ func opAlphabet(buckets, keys []string, single bool) []s3op {
 func runC02(c *Ctx) {
 	r := c.R
 	exhLen := r.Pick(3, 4)
-	r.SetRule(fmt.Sprintf("bounded-exhaustive: every sequence of length %d over a reduced alphabet (1 bucket, keys k and d/x: create/head/delete bucket, put x2 bodies and the first body again with other metadata, get, head, delete, copy incl. self-copy, multi-delete, list-buckets), every put carrying body-derived Content-Type and x-amz-meta-w that reads must return, each step followed by an audit read of every key; random: sequences of 30-60 ops over 2 buckets x keys {k, d/x, d/y, d/e/z, <bucket>/in} incl. cross-bucket copy, a third never-created bucket and never-written ghost keys (below an object, the name of a directory above objects, an extension of a key) as targets of reads, deletes and copy sources, multi-deletes with bare keys, with version id 'null' (the same delete in a never-versioned bucket) and with a version id that does not exist (nothing may be removed); each on mem, bolt, fs-mm, fs-dir, single-mm, single-dir, with and without auto-bucket, via HTTP and via the Go Backend API; distinct = (configuration, op-kind sequence, outcome-class sequence) containing a mutation followed by a dependent read", exhLen))
+	r.SetRule(fmt.Sprintf("bounded-exhaustive: every sequence of length %d over a reduced alphabet (1 bucket, keys k and d/x: create/head/delete bucket, put x2 bodies and the first body again with other metadata, get, head, delete, copy incl. self-copy, multi-delete, list-buckets), every put carrying body-derived Content-Type and x-amz-meta-w that reads must return, each step followed by an audit read of every key; random: sequences of 30-60 ops over 2 buckets x keys {k, d/x, d/y, d/e/z, <bucket>/in} incl. cross-bucket copy, a third never-created bucket and never-written ghost keys (below an object, the name of a directory above objects, an extension of a key) as targets of reads, deletes and copy sources, multi-deletes with bare keys, with version id 'null' (the same delete in a never-versioned bucket) and with a version id that does not exist (nothing may be removed); each on mem, bolt, fs-mm, fs-dir, single-mm, single-dir, with and without auto-bucket, via HTTP and via the Go Backend API; DeleteObjects requests with 1, 998-1001 and 1500 entries (within the limit of 1000: answered 200, every entry reported, named live keys gone; above: all backends alike, a refusal removes nothing); after a storage fault (one request served while the n-th file-system call of a class fails) the file backends are emptied, keys named like former directories stored and deleted, the bucket deleted and recreated; distinct = (configuration, op-kind sequence, outcome-class sequence) containing a mutation followed by a dependent read", exhLen))
 	r.Exhaustive(true)
 	var cfgs []c02Config
 	for _, k := range drv.AllKinds {
@@ -680,6 +680,7 @@ func runC02(c *Ctx) {
 	})
 	if c.Only == "" {
 		runC02Faults(r)
+		runC02Wide(r)
 	}
 	r.Require("ops", 10000)
 	r.Require("predicted_errors", 1000)
